@@ -69,3 +69,109 @@ Theorem rel_err_scale_invariant c d p : c <> 0 -> sqnorm d <> 0 -> rel_err2 (msc
 Proof.
   intros Hc Hd. unfold rel_err2. rewrite sqdiff_scale, qsum_map_scale, sqnorm_scale. field. repeat split; auto.
 Qed.
+
+(* ---- determinant / optimality criterion ---- *)
+Close Scope Qc_scope.
+Open Scope nat_scope.
+
+(* square selections: the criterion is |det B_S| - never negative, and its square is det^2 *)
+Theorem optimality_square_nonneg BS : length BS = length (hd [] BS) -> (0 <= optimality BS)%Qc.
+Proof.
+  intro H. unfold optimality. rewrite H, Nat.eqb_refl. cbv zeta.
+  destruct (Qle_bool _ (det BS)) eqn:E.
+  - apply Qle_bool_iff in E. exact E.
+  - assert (L : (det BS < 0)%Qc).
+    { apply Qcnot_le_lt. intro C. assert (E' : Qle_bool 0%Q (det BS) = true) by (apply Qle_bool_iff; exact C). rewrite E' in E. discriminate. }
+    apply Qclt_le_weak in L. apply Qcopp_le_compat in L. replace (- 0)%Qc with 0%Qc in L by ring. exact L.
+Qed.
+
+Theorem optimality_square_sq BS : length BS = length (hd [] BS) -> (optimality BS * optimality BS = det BS * det BS)%Qc.
+Proof. intro H. unfold optimality. rewrite H, Nat.eqb_refl. cbv zeta. destruct (Qle_bool _ _); ring. Qed.
+
+Lemma det1 (s : Qc) : det [[s]] = s.
+Proof. unfold det. cbn [length det_fuel map combine seq remove_col Nat.even qsum fold_right]. ring. Qed.
+
+(* the Laplace expansion is the familiar 2x2 formula *)
+Theorem det2 (a b c d : Qc) : (det [[a; b]; [c; d]] = a * d - b * c)%Qc.
+Proof. unfold det. cbn [length det_fuel map combine seq remove_col Nat.even qsum fold_right]. ring. Qed.
+
+Lemma nth_map_seq {A} (f : nat -> A) m i d : i < m -> nth i (map f (seq 0 m)) d = f i.
+Proof.
+  intro H. rewrite (nth_indep _ d (f 0)) by (rewrite map_length, seq_length; exact H).
+  rewrite (map_nth f (seq 0 m) 0 i), seq_nth by exact H. reflexivity.
+Qed.
+
+(* entry (i, j) of B_S^T B_S is the inner product of COLUMNS i and j of B_S (a transposed product would pair rows) *)
+Theorem transpose_mul_entry A i j : i < length (hd [] A) -> j < length (hd [] A) ->
+  nth j (nth i (transpose_mul A) []) 0%Qc = qsum (map (fun r => nth i r 0 * nth j r 0)%Qc A).
+Proof. intros Hi Hj. unfold transpose_mul. cbv zeta. rewrite (nth_map_seq _ _ i [] Hi). now rewrite nth_map_seq. Qed.
+
+Lemma qsum_map_ext {X} (f g : X -> Qc) l : (forall x, f x = g x) -> qsum (map f l) = qsum (map g l).
+Proof. intro H. induction l as [|a l IH]; simpl; [reflexivity|]. now rewrite H, IH. Qed.
+
+Lemma qsum_cons a l : qsum (a :: l) = (a + qsum l)%Qc.
+Proof. reflexivity. Qed.
+
+Theorem transpose_mul_sym A i j : i < length (hd [] A) -> j < length (hd [] A) ->
+  nth j (nth i (transpose_mul A) []) 0%Qc = nth i (nth j (transpose_mul A) []) 0%Qc.
+Proof. intros Hi Hj. rewrite !transpose_mul_entry by assumption. apply qsum_map_ext. intro r. ring. Qed.
+
+(* one mode, p >= 2 sensors: det(B_S^T B_S) is the squared norm of the sensor entries of that mode *)
+Theorem optimality_one_mode col : 2 <= length col -> optimality (map (fun v => [v]) col) = qsum (map (fun v => v * v)%Qc col).
+Proof.
+  intro H. destruct col as [|a col]; [simpl in H; lia|].
+  unfold optimality. cbn [map hd length]. rewrite map_length.
+  destruct (Nat.eqb_spec (S (length col)) 1) as [E|_]; [simpl in H; lia|].
+  unfold transpose_mul. cbn [map hd length seq]. rewrite det1.
+  change (qsum (map (fun r : list Qc => (nth 0 r 0 * nth 0 r 0)%Qc) (map (fun v => [v]) (a :: col)))
+          = qsum (map (fun v : Qc => (v * v)%Qc) (a :: col))).
+  rewrite map_map. apply qsum_map_ext. reflexivity.
+Qed.
+
+(* two modes, p >= 3 sensors: det(B_S^T B_S) = |a|^2 |b|^2 - <a,b>^2 (Lagrange's identity form) *)
+Theorem optimality_two_modes (l : list (Qc * Qc)) : 3 <= length l ->
+  optimality (map (fun p => [fst p; snd p]) l) =
+  (qsum (map (fun p => fst p * fst p) l) * qsum (map (fun p => snd p * snd p) l)
+   - qsum (map (fun p => fst p * snd p) l) * qsum (map (fun p => fst p * snd p) l))%Qc.
+Proof.
+  intro H. destruct l as [|p0 l]; [simpl in H; lia|].
+  unfold optimality. rewrite map_length. cbn [map hd length].
+  destruct (Nat.eqb_spec (S (length l)) 2) as [E|_]; [simpl in H; lia|].
+  unfold transpose_mul. cbn [map hd length seq]. rewrite det2.
+  set (L := p0 :: l).
+  change ([fst p0; snd p0] :: map (fun p : Qc * Qc => [fst p; snd p]) l) with (map (fun p : Qc * Qc => [fst p; snd p]) L).
+  rewrite !map_map. cbn [nth].
+  rewrite !qsum_cons.
+  rewrite (qsum_map_ext (fun x : Qc * Qc => (snd x * fst x)%Qc) (fun x => (fst x * snd x)%Qc)) by (intro; ring).
+  ring.
+Qed.
+
+(* ... hence non-negative (Cauchy-Schwarz), as a Gram determinant must be *)
+Lemma lagrange_nonneg (l : list (Qc * Qc)) :
+  (0 <= qsum (map (fun p => fst p * fst p) l) * qsum (map (fun p => snd p * snd p) l)
+        - qsum (map (fun p => fst p * snd p) l) * qsum (map (fun p => fst p * snd p) l))%Qc.
+Proof.
+  induction l as [|[a b] l IH]; cbn [map qsum fold_right fst snd]; [replace (0 * 0 - 0 * 0)%Qc with 0%Qc by ring; apply Qcle_refl|].
+  fold (qsum (map (fun p : Qc * Qc => (fst p * fst p)%Qc) l)) (qsum (map (fun p : Qc * Qc => (snd p * snd p)%Qc) l))
+       (qsum (map (fun p : Qc * Qc => (fst p * snd p)%Qc) l)).
+  set (A := qsum (map (fun p : Qc * Qc => (fst p * fst p)%Qc) l)) in *.
+  set (B := qsum (map (fun p : Qc * Qc => (snd p * snd p)%Qc) l)) in *.
+  set (C := qsum (map (fun p : Qc * Qc => (fst p * snd p)%Qc) l)) in *.
+  (* (a^2+A)(b^2+B) - (ab+C)^2 = (AB - C^2) + (a^2 B + b^2 A - 2abC), and the last term is sum_i (a y_i - b x_i)^2 *)
+  assert (K : (0 <= a * a * B + b * b * A - (a * b * C + a * b * C))%Qc).
+  { subst A B C. clear IH. induction l as [|[x y] l IH]; cbn [map qsum fold_right fst snd].
+    - replace (a * a * 0 + b * b * 0 - (a * b * 0 + a * b * 0))%Qc with 0%Qc by ring. apply Qcle_refl.
+    - fold (qsum (map (fun p : Qc * Qc => (fst p * fst p)%Qc) l)) (qsum (map (fun p : Qc * Qc => (snd p * snd p)%Qc) l))
+           (qsum (map (fun p : Qc * Qc => (fst p * snd p)%Qc) l)).
+      match goal with |- (0 <= ?g)%Qc =>
+        replace g with ((a * y - b * x) * (a * y - b * x)
+          + (a * a * qsum (map (fun p : Qc * Qc => (snd p * snd p)%Qc) l) + b * b * qsum (map (fun p : Qc * Qc => (fst p * fst p)%Qc) l)
+             - (a * b * qsum (map (fun p : Qc * Qc => (fst p * snd p)%Qc) l) + a * b * qsum (map (fun p : Qc * Qc => (fst p * snd p)%Qc) l))))%Qc by ring end.
+      apply Qc_add_nonneg; [apply Qc_sq_nonneg | exact IH]. }
+  match goal with |- (0 <= ?g)%Qc =>
+    replace g with ((A * B - C * C) + (a * a * B + b * b * A - (a * b * C + a * b * C)))%Qc by ring end.
+  apply Qc_add_nonneg; assumption.
+Qed.
+
+Theorem optimality_two_modes_nonneg (l : list (Qc * Qc)) : 3 <= length l -> (0 <= optimality (map (fun p => [fst p; snd p]) l))%Qc.
+Proof. intro H. rewrite optimality_two_modes by exact H. apply lagrange_nonneg. Qed.
